@@ -461,6 +461,7 @@ class C10(Suite):
         yield from self.grid_cases(rng, quick)
         yield from self.random_programs(rng, 6000 if quick else 150000)
         yield from self.lib_cases(rng, quick)
+        yield from self.cip_cases(rng, quick)
 
     def src_cases(self, rng, n):
         for k in range(n):
@@ -665,6 +666,27 @@ class C10(Suite):
                             yield {"op": "lib", "m": name, "mode": mode, "limit": lim, "n": n if exact else None,
                                    "chunks": split_chunks(rng, b + tail) if rng.random() < 0.3 else [(b + tail).hex()]}
 
+    def cip_cases(self, rng, quick):
+        """the CIP command level: enip.command / enip.length come from the (already parsed) header in the data
+        artifact, the source is a stream that continues past the frame (the next frame's octets).  enip.length
+        is the limit the command parser is given: shorter than, equal to and longer than what the content asks"""
+        from corr import c10_lib as L
+        encs = L.cip_encodings(rng, L.corpus_bytes())
+        if quick and len(encs) > 40:
+            head = [x for x in encs if len(x[1]) <= 40][:30]
+            encs = head + rng.sample([x for x in encs if x not in head], 10)
+        for cmd, b in encs:
+            n = len(b)
+            follow = bytes([0x65, 0x00, 0x04, 0x00]) + bytes(rng.randint(0, 255) for _ in range(rng.choice([2, 4, 20])))
+            lengths = sorted(set(x for x in (0, 1, 2, n // 2, n - 4, n - 1, n, n + 1, n + 3) if x >= 0))
+            if quick and len(lengths) > 5:
+                lengths = sorted(set([n - 1 if n else 0, n, n + 1] + rng.sample(lengths, 2)))
+            for ln in lengths:
+                stream = b + follow
+                yield {"op": "lib", "m": "CIP", "mode": "kw", "limit": None, "n": None,
+                       "pre": {"enip.command": cmd, "enip.length": ln}, "path": "enip", "bound": ln,
+                       "chunks": split_chunks(rng, stream) if rng.random() < 0.3 else [stream.hex()]}
+
     def lib_instance(self, name, mode):
         from corr import c10_lib as L
         import cpppo
@@ -687,7 +709,10 @@ class C10(Suite):
         sess = L.CUR["s"] = L.Session()
         inst.reset()
         all_input = b"".join(bytes.fromhex(x) for x in c["chunks"])
-        out, src, pend, data = run_real(top, c["chunks"], data=L.LogDict(), path=None)
+        data0 = L.LogDict()
+        for k, v in sorted((c.get("pre") or {}).items()):
+            data0[k] = v
+        out, src, pend, data = run_real(top, c["chunks"], data=data0, path=c.get("path"))
         sent, peek = src.sent, show_peek(src)
         key = json.dumps(c, sort_keys=True)
         tape = [v if isinstance(v, int) and not isinstance(v, bool) and v >= 0 else None for v in sess.tape]
@@ -708,6 +733,18 @@ class C10(Suite):
                 and L.self_delimiting(c["m"], all_input[:c["n"]])):
             why = (f"{c['m']} consumed {sent} symbols of a valid {c['n']}-byte encoding followed by other bytes: "
                    f"it read {sent - c['n']} past its own boundary")
+        if not why and out == "ok" and c.get("bound") is not None and sent > c["bound"]:
+            # a length field parsed earlier in the same message (the encapsulation header's) is the limit
+            why = (f"{c['m']} command 0x{c['pre']['enip.command']:04x} completed having consumed {sent} symbols "
+                   f"with enip.length {c['bound']}: {sent - c['bound']} taken from beyond the frame")
+        if (not why and out == "ok" and c.get("n") is not None and sent < c["n"]
+                and (c["limit"] is None or c["limit"] >= c["n"])
+                and all(len(x) > 0 for x in c["chunks"])
+                and L.self_delimiting(c["m"], all_input[:c["n"]])):
+            # every count / size / length field of a well-formed element is honoured exactly: the counted
+            # sub-grammars ran as often as their counts say iff the whole element was consumed
+            why = (f"{c['m']} completed after {sent} symbols of a valid {c['n']}-byte encoding: a counted part "
+                   f"was not run as often as its count demands ({c['n'] - sent} symbols left to the encloser)")
         self._why[key] = why
         return line
 
@@ -841,7 +878,8 @@ class C10(Suite):
         if c["op"] == "src":
             return self.model_line(c) if len(c["ops"]) >= 3 else None
         if c["op"] == "lib":
-            return json.dumps(c, sort_keys=True) if c["limit"] is not None and out != "reject:data" else None
+            return json.dumps(c, sort_keys=True) if (c["limit"] is not None or c.get("bound") is not None) \
+                and out != "reject:data" else None
         toks = out.split()
         if len(toks) > 1 and toks[1].lstrip("-").isdigit() and int(toks[1]) > 0 and any(
                 s.get("lim") or (s["k"] == "D" and s.get("rep")) for s in c["states"]):
@@ -853,7 +891,7 @@ class C10(Suite):
             return "src"
         if c["op"] == "lib":
             n = len(b"".join(bytes.fromhex(x) for x in c["chunks"]))
-            rel = "nolimit" if c["limit"] is None else "limit"
+            rel = "nolimit" if c["limit"] is None and c.get("bound") is None else "limit"
             return "lib:%s:%s:%s" % (c["m"].split(":")[0].split(".")[0] if c["m"].startswith(("typed", "octets", "words")) else c["m"], rel, out.split()[0])
         return "%s:%s" % (c.get("fam", "eng"), out.split()[0])
 
